@@ -68,6 +68,7 @@ func genC11(g *simrt.Tape, tier string) any {
 	if !sc.Enforce && g.Draw(6) == 0 {
 		sc.DiscoverMode = 1 + g.Draw(2)
 	}
+	sc.Cluster = g.Draw(5) == 0
 	return sc
 }
 
@@ -189,6 +190,9 @@ func c11Floor(tier string) []*ClientSc {
 							sc.Conns = []ConnSc{{Plan: []simnet.FaultAt{{Op: k, Kind: kind}}}}
 						}
 						out = append(out, sc)
+						cl := *sc
+						cl.Cluster = true
+						out = append(out, &cl)
 					}
 				}
 				for _, bh := range []ReqBehav{{CloseBefore: true}, {CloseAfter: true}, {Partial: 4}} {
